@@ -194,6 +194,9 @@ def disk_corpora():
     yield [({"a": "ab"}, None), ({"a": "b"}, None), ({"a": "1"}, None), ({"a": "a1"}, None), ({"a": ""}, None)]
     yield [({"a": [1, 2]}, None), ({"a": [1.0, 2]}, None), ({"a": [2, 1]}, None), ({"a": []}, None), ({"a": [[1, 2]]}, None)]
     yield [({"k": 0}, {"x": 1, "n": {"m": 1}}), ({"k": 1}, {"x": 2.5, "n": {"m": "1"}}), ({"k": 2}, {"x": "1", "n": 3})]
+    # integers beyond 2**53 (not representable as doubles) next to their float neighbours
+    yield [({"a": 9007199254740993}, {"x": 9007199254740993}), ({"a": 9007199254740992}, {"x": 9007199254740992}),
+           ({"a": 9007199254740992.0}, None), ({"a": 9007199254740994}, None)]
     yield [({"spin": {"up": 1}, "docs": {"k": 1}}, None), ({"spin": {"up": "x"}}, {"x": 1}), ({"docs": {"k": 2}, "a": 1}, None),
            ({"spin": 1, "docs": 2}, None)]
 
